@@ -515,6 +515,86 @@ theorem fsm_reorder_regression :
   intro t syn ack fin rst dir
   simp [acceptSegment]
 
+/-! ### `Accept` never rejects data that is still needed (wrap-aware)
+
+  Sequence numbers are compared as RFC 1982 serial numbers: `serialDiff a b` is the representative of `b - a`
+  modulo 2^32 in `[-2^31, 2^31)`.  A data segment `[seq, seq+len)` is *entirely delivered* when its end is not after
+  `nextSeq` (the next byte the assembler expects) in that sense, and *needed* otherwise.  A rule that drops
+  "already delivered retransmissions" in `Accept` by the plain comparison `seq + len ≤ nextSeq` rejects a needed
+  segment whenever the segment lies after the 2^32 wrap and `nextSeq` before it (`plain_compare_rejects_needed_at_wrap`)
+  — the class of the seeded change this block was added for; the driver compares every recorded answer of the real
+  `Accept` with `acceptSegment` (DIVERGE `accept answer differs`) and reports a rejected segment that no accepted one
+  covers as PROPFAIL. -/
+
+/-- RFC 1982 signed distance from `a` to `b` modulo 2^32 -/
+def serialDiff (a b : Nat) : Int :=
+  let d := (b % 4294967296 + 4294967296 - a % 4294967296) % 4294967296
+  if d < 2147483648 then (d : Int) else (d : Int) - 4294967296
+
+/-- the segment `[seq, seq+len)` lies entirely within the sequence space delivered so far (wrap-aware) -/
+def EntirelyDelivered (nextSeq seq len : Nat) : Prop := serialDiff nextSeq (seq + len) ≤ 0
+
+/-- a data segment that still carries at least one byte the stream does not have (wrap-aware) -/
+def SegNeeded (nextSeq seq len : Nat) : Prop := 0 < len ∧ ¬ EntirelyDelivered nextSeq seq len
+
+instance (a b c : Nat) : Decidable (EntirelyDelivered a b c) := by unfold EntirelyDelivered; exact inferInstance
+instance (a b c : Nat) : Decidable (SegNeeded a b c) := by unfold SegNeeded; exact inferInstance
+
+/-- the rejection test of the seeded fast path: plain comparison of the segment's end with `nextSeq` -/
+def plainFastPathRejects (nextSeq seq len : Nat) : Bool := decide (0 < len) && decide (seq + len ≤ nextSeq)
+
+/-- `Accept` (flowsdecoder.go:40-63, `acceptSegment`) accepts every data segment that is not entirely within the
+    already delivered sequence space in wrap-aware terms.  FSM side conditions: NONE — whatever state
+    `TCPSimpleFSM` is in (closed, SYN sent, established, close-wait, last-ack, reset), whatever the flags and the
+    direction, and whatever `CheckState` answers; in particular once the connection is established.  (The answer
+    does not even depend on `nextSeq`: `Accept` has no business judging retransmissions, the assembler trims them.)
+    Configuration side condition: `CheckTCPOptions = false`, as format/pcap passes it (pcap.go:91, pcapng.go); the
+    option checker branch :51-57 is outside the model. -/
+theorem accept_never_rejects_needed_data (t : Fsm) (syn ack fin rst dir : Bool) (nextSeq seq len : Nat)
+    (hneed : SegNeeded nextSeq seq len) :
+    (acceptSegment t syn ack fin rst dir (decide (0 < len))).2 = true := by
+  have h : decide (0 < len) = true := by simpa using hneed.1
+  simp [acceptSegment, h]
+
+/-- the same over a whole history of one connection: in `acceptRun`, the answer for every packet that carries
+    payload is `true`, whatever came before it (all histories, all FSM states reached) -/
+theorem accept_run_never_rejects_data (pkts : List (Bool × Bool × Bool × Bool × Bool × Bool)) :
+    ∀ (t : Fsm) (i : Nat) (h : i < pkts.length), (pkts[i]).2.2.2.2.2 = true → (acceptRun t pkts)[i]? = some true := by
+  induction pkts with
+  | nil => intro t i h; simp at h
+  | cons p rest ih =>
+    intro t i h hp
+    obtain ⟨syn, ack, fin, rst, dir, pay⟩ := p
+    cases i with
+    | zero =>
+      simp only [List.getElem_cons_zero] at hp
+      simp [acceptRun, acceptSegment, hp]
+    | succ j =>
+      simp only [List.getElem_cons_succ] at hp
+      simp only [acceptRun, List.getElem?_cons_succ]
+      exact ih _ j (by simpa using h) hp
+
+/-- the seeded rule is wrong exactly at the wrap: `nextSeq = 2^32 - 5`, a 10 byte segment at sequence number 0
+    (captured before the segment that contains the wrap) is needed, the plain comparison rejects it; a wrap-aware
+    comparison does not; away from the wrap both agree on a genuine retransmission -/
+theorem plain_compare_rejects_needed_at_wrap :
+    SegNeeded 4294967291 0 10 ∧ plainFastPathRejects 4294967291 0 10 = true ∧
+    ¬ EntirelyDelivered 4294967291 0 10 ∧
+    (EntirelyDelivered 5009 5001 8 ∧ plainFastPathRejects 5009 5001 8 = true) ∧
+    -- a retransmission that ends exactly at the wrap while `nextSeq` is already behind it: delivered, and the plain
+    -- comparison misses it (harmless direction)
+    (EntirelyDelivered 5 4294967286 10 ∧ plainFastPathRejects 5 4294967286 10 = false) := by decide
+
+/-- non-vacuity of `accept_never_rejects_needed_data` at the wrap, in the established state with the FSM saying no
+    (a FIN was seen: close-wait, no ACK flag): the needed segment at sequence number 0 is accepted, the same packet
+    without payload is not -/
+example :
+    SegNeeded 4294967291 0 10 ∧
+    (acceptSegment ⟨2, false⟩ false true false false false (decide (0 < 10))).2 = true ∧
+    (fsmCheck ⟨3, false⟩ false false false false false).2 = false ∧
+    (acceptSegment ⟨3, false⟩ false false false false false (decide (0 < 10))).2 = true ∧
+    (acceptSegment ⟨3, false⟩ false false false false false (decide (0 < 0))).2 = false := by decide
+
 /-- fixed finding `pcapng-shb-section` (regression): section_length −1, second section with an SLL2 interface after
     a first section with an ethernet interface.  OLD: ONE section for the file, interface id 0 of the second
     section looked up in the accumulated table — ethernet.  Fixed in 501642c1: two sections, own tables. -/
